@@ -98,6 +98,17 @@ func init() {
 		Rule: "cases = curated descriptors with custom-type fields (k1: repeated customtype with a suffixes entry and a custom_types entry; k4: nullable / by-value / repeated customtype, custom_types entry with a path-like type name and default suffix) + seeded random descriptors that contain custom fields; the harness's hooks GenSchema<S> / CopyFrom<S> / CopyTo<S> are generic recording shims named after the suffix the model predicts (a different suffix does not compile); oracles: one GenSchema<S> call per custom field with the model's description and flags, schema entry = hook result; CopyTo: a call carrying the field value, the attribute type of the target and the current attribute value (absent on the first call, the earlier value on the second), stored value = returned value; CopyFrom: exactly one call with a pointer to the very field and the very attribute value, field not written by generated code, missing attribute still reported; distinct = distinct (direction, custom field, prior state) tuples",
 		Check: func(r *Run) {
 			cases := curatedCases("k1", "k4", "k9", "k13", "k15")
+			{
+				// a configured suffix is the suffix, also when it is the empty string (hooks GenSchema / CopyFrom / CopyTo)
+				e := descgen.CuratedByName("k1")
+				e.Cfg.Suffixes["CustomB"] = ""
+				// temporal fields listed in custom_types are delegated like any other field
+				for _, n := range []string{"DurationStandardMissing", "DurationCustomMissing", "TimestampMissing", "TimestampNullableWithNilValue"} {
+					e.Cfg.CustomTypes["Test."+n] = "verif/types.Boxed"
+				}
+				e.Cfg.Suffixes["verif/types.Boxed"] = "SpanHook"
+				cases = append(cases, caseFrom(descgen.Rename(e, "k1blank")))
+			}
 			for k := 0; k < r.pick(2, 10); k++ {
 				cases = append(cases, caseFrom(descgen.OptionVariant(descgen.CuratedByName("k4"), r.Seed, k)))
 			}
